@@ -4,12 +4,28 @@ package polyjson
 //
 // Generated annotated sequences are written with Write into a temporary
 // directory and read back with Read / Parse; the result is compared field by
-// field with the value that went in (nil and empty collections count as equal,
-// the ParentSequence pointer itself is not compared), every feature must be
+// field with the value that went in (the ParentSequence pointer itself is not
+// compared), every feature must be
 // re-linked so that GetSequence gives what an independent evaluation of its
 // location gives on the original sequence, and GenBank / GFF text laid out by
 // generators in this file must come out of Build identically whether or not
 // the parsed value went through JSON in between.
+//
+// ABSENT and EMPTY collections. The JSON form itself tells an absent
+// collection (nil, written as null) from an empty one (non-nil of length 0,
+// written as [] or {}), and with the tags of the code base both shapes survive
+// the trip. So a collection given as absent must come back absent and one given
+// as empty must come back empty, for Meta.References, Meta.Other,
+// Feature.Attributes and Location.SubLocations at every depth (classes
+// empty-collection-became-absent, absent-collection-became-empty; they are
+// judged only on a value that is otherwise equal in every field). The one
+// exception is Sequence.Features: Parse itself moves the features over into a
+// fresh list (sequence.Features = []poly.Feature{} followed by AddFeature for
+// each, which is how the parent links are restored), so an absent feature list
+// comes back empty on the unchanged code base and the two shapes cannot be told
+// apart there; for that field nil and empty count as equal. The generators
+// draw both shapes for every one of these fields, SubLocations of leaves at
+// every depth of the tree.
 //
 // A part of the records carries the text Name (as JSON key, as string value,
 // inside strings) together with integers beyond 2^53, which are not all
@@ -500,7 +516,8 @@ func c15NameRecord(rng *rand.Rand, i int) (*poly.Sequence, string) {
 }
 
 // c15Diff gives the path of the first difference between two values, "" when
-// equal. nil and empty slices/maps are equal; ParentSequence is not compared.
+// equal. nil and empty slices/maps are equal here (c15ShapeDiff is the second
+// pass that tells them apart); ParentSequence is not compared.
 func c15Diff(path string, a, b reflect.Value) string {
 	if a.Type() != b.Type() {
 		return path + ": types differ"
@@ -554,6 +571,54 @@ func c15Diff(path string, a, b reflect.Value) string {
 		return path + ": field kind " + a.Kind().String() + " not handled by the comparison"
 	}
 	return ""
+}
+
+// c15NilEmptyEqual lists the collection fields in which the code base itself
+// builds the collection anew and cannot keep absent apart from empty: Parse
+// sets sequence.Features = []poly.Feature{} and re-adds every feature, so an
+// absent feature list comes back empty on the unchanged tree.
+var c15NilEmptyEqual = map[string]bool{"Sequence.Features": true}
+
+// c15ShapeDiff is the second pass over two values that c15Diff found equal: it
+// gives the first collection (slice or map) of length 0 that was written absent
+// (nil) and read empty (non-nil) or the other way round, with the class of that
+// difference; "", "" when there is none. Fields in c15NilEmptyEqual are left out.
+func c15ShapeDiff(path string, a, b reflect.Value) (class, detail string) {
+	switch a.Kind() {
+	case reflect.Struct:
+		for i := 0; i < a.NumField(); i++ {
+			name := a.Type().Field(i).Name
+			if name == "ParentSequence" {
+				continue
+			}
+			if class, detail = c15ShapeDiff(path+"."+name, a.Field(i), b.Field(i)); class != "" {
+				return
+			}
+		}
+	case reflect.Slice, reflect.Map:
+		if a.IsNil() != b.IsNil() && !c15NilEmptyEqual[strings.NewReplacer("[]", "", "{}", "").Replace(path)] {
+			if a.IsNil() {
+				return "absent-collection-became-empty", path + ": written absent (nil, null in the file), read empty (non-nil, length 0)"
+			}
+			return "empty-collection-became-absent", path + ": written empty (non-nil, length 0), read absent (nil)"
+		}
+		if a.Kind() == reflect.Slice {
+			for i := 0; i < a.Len() && i < b.Len(); i++ {
+				if class, detail = c15ShapeDiff(path+"[]", a.Index(i), b.Index(i)); class != "" {
+					return
+				}
+			}
+		} else if a.Type().Elem().Kind() != reflect.String { // map[string]string has nothing below it
+			for _, k := range a.MapKeys() {
+				if bv := b.MapIndex(k); bv.IsValid() {
+					if class, detail = c15ShapeDiff(path+"{}", a.MapIndex(k), bv); class != "" {
+						return
+					}
+				}
+			}
+		}
+	}
+	return "", ""
 }
 
 // c15BigIntDiff recognises the difference text of an Int field whose written
@@ -655,6 +720,10 @@ func c15RoundTrip(vr, vl *verifRun, rec *poly.Sequence, path, what, historyClass
 			class = shape
 		}
 		vr.Fail(class, what, c15Clip(d))
+	} else if class, detail := c15ShapeDiff("Sequence", reflect.ValueOf(*rec), reflect.ValueOf(got)); class != "" {
+		// equal in every field but for an absent collection read as an empty one or
+		// the reverse: a class of its own, whatever part the record belongs to
+		vr.Fail(class, what, c15Clip(detail)+" (every field equal otherwise)")
 	}
 
 	lcls := cls
@@ -1160,8 +1229,12 @@ func TestVerifC15(t *testing.T) {
 	seed := verifSeed()
 
 	content := "every Meta, Locus, Reference, Feature and Sequence field filled from a pool of ASCII, punctuation (quotes, backslash, <, &, tab, newline, NUL, U+2028) and non-ASCII text (Latin-1, CJK, Greek, 4-byte code points, combining marks; valid UTF-8 only, JSON text cannot carry anything else), ints incl. 0, negative and 63-bit; " +
-		"location structures valid for the sequence, Join nodes of 2..4 operands nested to depth 4 (other kinds of node with operands in the wrapper-node part), Complement and both partial flags on any node, leaf SubLocations nil or empty; sequences over ACGT"
-	axes := "systematic part: every combination of references {0 nil, 0 empty, 1, 5} x Other {nil, empty, 1 key, several} x Features {nil, empty, 1, 3} x attributes {nil, empty, 1, several} x location depth {0..4} (1280 shapes, content random); " +
+		"location structures valid for the sequence, Join nodes of 2..4 operands nested to depth 4 (other kinds of node with operands in the wrapper-node part), Complement and both partial flags on any node, SubLocations of every leaf, at every depth 0..4 of the tree, absent (nil) or empty (non-nil, length 0) with equal chance; sequences over ACGT"
+	nilEmpty := "absent and empty collections: a collection given as ABSENT (nil; null in the file) must come back absent and one given as EMPTY (non-nil, length 0; [] or {} in the file) must come back empty - the JSON form tells the two apart and with the tags of the code base both survive - for Meta.References, Meta.Other, Feature.Attributes of every feature and Location.SubLocations at every depth; " +
+		"judged on a value that is equal in every field otherwise, classes empty-collection-became-absent and absent-collection-became-empty in every part of the domain; " +
+		"EXCEPTION Sequence.Features, where nil and empty count as equal: Parse itself moves the features into a fresh list (sequence.Features = []poly.Feature{}, then AddFeature for each, which is what restores the parent links), so on the unchanged code base an absent feature list comes back empty and the distinction cannot be kept there (checked by experiment: every other collection field keeps both shapes through Write/Read and Parse at depths 0..4); " +
+		"every part draws both shapes for each of these fields: references {absent, empty}, Other {absent, empty}, Features {absent, empty}, attributes {absent, empty} per feature, leaf SubLocations {absent, empty} per leaf"
+	axes := "systematic part: every combination of references {absent, empty, 1, 5} x Other {absent, empty, 1 key, several} x Features {absent, empty, 1, 3} x attributes {absent, empty, 1, several} x location depth {0..4} (1280 shapes, content random); " +
 		"random part: " + strconv.Itoa(nRandom) + " seeded records, 0..5 references, 0..6 features, sequence length 0..300; " +
 		"long part: " + strconv.Itoa(longPer) + " records for each sequence length in " + fmt.Sprint(longLens) + " (0..2 references, 1..3 features or none, location depth 0..2; Write puts the sequence on ONE line of the file, beyond 64 KiB from about 65.5 kb on; a failure on a file with such a line is classed sequence-beyond-64k); " +
 		"Name-text part: " + strconv.Itoa(nName) + " seeded records (0..2 references, 1..3 features, first location a Join of depth 1..2, sequence length 1..40) that carry the text Name - as an attribute key with value thrL (what the GFF reader stores for Name=thrL), as a key of Meta.Other, as the whole value of Feature.Type or Feature.Name, inside Description as Name=thrL, or inside Meta.Definition between double quotes; the eight combinations {each alone, attribute key + Type, Other key + Description + Feature.Name} in turn - " +
@@ -1174,7 +1247,7 @@ func TestVerifC15(t *testing.T) {
 		"(d) a record, then the same record with every base of its sequence replaced, then the first record again, same size, time pinned, (e) size and time as they come; size and time are confirmed with os.Stat before each Read; a failure at the 2nd or 3rd step is classed path-reused-same-size-and-mtime (a, d), path-reused-same-size (b), path-reused-same-mtime (c), path-reused (e); " +
 		"apart from the histories every round trip uses one path per worker over and over, each write with its own size and time"
 	vr := newVerifRun("C15", "io/polyjson.Write-Read/post/roundtrip",
-		"Write to a file in a temporary directory, Read back, compare every field by reflection (nil = empty collection, ParentSequence pointer not compared); "+content+"; "+axes+"; non-trivial = has a feature, a reference or an Other entry, or is the 2nd or 3rd step of a history")
+		"Write to a file in a temporary directory, Read back, compare every field by reflection (ParentSequence pointer not compared); "+nilEmpty+"; "+content+"; "+axes+"; non-trivial = has a feature, a reference or an Other entry, or is the 2nd or 3rd step of a history")
 	vl := newVerifRun("C15", "io/polyjson.Parse/post/relink",
 		"same records; after Read and after Parse on the file's bytes every feature has a parent holding the returned record's sequence and GetSequence equals both its value before serialisation and an independent evaluation of the location on the original sequence; non-trivial = has a feature; "+axes)
 	vg := newVerifRun("C15", "io/polyjson/post/convert-genbank",
